@@ -320,15 +320,14 @@ Proof. vm_compute. reflexivity. Qed.
 Lemma table_size : length all_cells = 1800%nat.
 Proof. vm_compute. reflexivity. Qed.
 
-Lemma table_complete : forall c : cell, In c all_cells.
-Proof.
-  intros [i m s r ms ts].
-  destruct i, m, s, r, ms, ts; vm_compute; tauto.
-Qed.
+Lemma table_cells_ok : forall c, In c all_cells -> cell_ok current c = true.
+Proof. intros c Hin. pose proof table_current_ok as H. rewrite forallb_forall in H. apply H. exact Hin. Qed.
 
+(* the same for every inhabitant of the cell type (finite case analysis: 5*3*3*2*5*4 = 1800 cases) *)
 Lemma every_cell_ok : forall c : cell, cell_ok current c = true.
 Proof.
-  intro c. pose proof table_current_ok as H. rewrite forallb_forall in H. apply H. apply table_complete.
+  intros [i m s r ms ts].
+  destruct i, m, s, r, ms, ts; vm_compute; reflexivity.
 Qed.
 
 (* the abstraction of a cell is an instance of the general theorem: the table adds the failure-ack column *)
@@ -362,6 +361,10 @@ Proof. exists w_cell_existing. split; vm_compute; reflexivity. Qed.
 Lemma pinned_cross_node_refuted :
   exists c, attaches (cell_open pinned c) = true /\ cell_entitled c = false.
 Proof. exists w_cell_remote. split; vm_compute; reflexivity. Qed.
+
+Lemma pinned_cross_node_refuted_remote :
+  exists c, ce_tstate c = TRemote /\ attaches (cell_open pinned c) = true /\ cell_entitled c = false.
+Proof. exists w_cell_remote. split; [reflexivity|]. split; vm_compute; reflexivity. Qed.
 
 Lemma pinned_secret_path_refuted :
   exists c, attaches (cell_open {| v_validate_first := true; v_secret_isvalid := false |} c) = true /\ cell_entitled c = false.
